@@ -107,7 +107,7 @@ def main():
         ],
         "checks": checks,
         "not_applicable": na,
-        "notes": "All checks are bounded-exhaustive explorations of the real dasp code (no sampling); ./check is the driver (child process, wall/address-space caps, crash/hang/panic replay). Every check except C07 runs in a release build and again with debug assertions and overflow checks on (dbg parts, quick bounds); C15 in all four combinations; C11 also in the no_std build. known_findings.txt lists fixed defects and the two recorded findings (C07 graph.regrow-on-different-graph, C18 sinc.int-partial-sum-overflow); seeded/ holds 150 property-breaking changes (all detected by the quick check of their property), benign/ 50 behaviour-preserving ones (all quiet).",
+        "notes": "All checks are bounded-exhaustive explorations of the real dasp code (no sampling); ./check is the driver (child process, wall/address-space caps, crash/hang/panic replay). Every check except C07 runs in a release build and again with debug assertions and overflow checks on (dbg parts, quick bounds); C15 in all four combinations; C11 also in the no_std build. known_findings.txt lists fixed defects and the two recorded findings (C07 graph.regrow-on-different-graph, C18 sinc.int-partial-sum-overflow); seeded/ holds 150 property-breaking changes (all detected by the quick check of their property), benign/ 58 behaviour-preserving ones (all quiet on the properties they preserve).",
     }
     with open(os.path.join(ROOT, "MANIFEST.json"), "w") as f:
         json.dump(man, f, indent=1)
